@@ -166,17 +166,29 @@ Proof.
 Qed.
 
 (* --------------------------- non-vacuity ------------------------------------------- *)
-Definition ex_toks : list tok :=   (* color:red;position:fixed;WIDTH:1px *)
-  [(tok_ident, [99;111;108;111;114]); (tok_char, [58]); (tok_ident, [114;101;100]); (tok_char, [59]);
-   (tok_ident, [112;111;115;105;116;105;111;110]); (tok_char, [58]); (tok_ident, [102;105;120;101;100]); (tok_char, [59]);
-   (tok_ident, [87;73;68;84;72]); (tok_char, [58]); (8, [49;112;120]); (tok_eof, [])].
+(* The examples are built from the FIRST entry of the generated allow-list and from an
+   identifier no allow-list will hold, so that they keep checking when the list changes. *)
+Definition never_allowed : str := [120;45;45;118;101;114;105;102;45;110;101;118;101;114].   (* x--verif-never *)
+Definition ex_toks (p : str) : list tok :=   (* p:red;x--verif-never:fixed;P:1px  (P = upper-cased p) *)
+  [(tok_ident, p); (tok_char, [58]); (tok_ident, [114;101;100]); (tok_char, [59]);
+   (tok_ident, never_allowed); (tok_char, [58]); (tok_ident, [102;105;120;101;100]); (tok_char, [59]);
+   (tok_ident, upper p); (tok_char, [58]); (8, [49;112;120]); (tok_eof, [])].
 Example style_example :
-  sanitize_style ex_toks = [99;111;108;111;114;58;114;101;100;59;87;73;68;84;72;58;49;112;120].
+  match allowed_properties with
+  | p :: _ => sanitize_style (ex_toks p) = p ++ [58;114;101;100;59] ++ upper p ++ [58;49;112;120]
+  | [] => True
+  end.
 Proof. vm_compute. reflexivity. Qed.
-Example style_marker_example :   (* ":x;color" -> marker comment, then the allowed identifier *)
-  sanitize_style [(tok_char, [58]); (tok_ident, [120]); (tok_char, [59]); (tok_ident, [99;111;108;111;114])]
-  = [47;42;67;72;65;82;42;47;99;111;108;111;114].
+Example style_marker_example :   (* ":x;p" -> marker comment, then the allowed identifier *)
+  match allowed_properties with
+  | p :: _ => sanitize_style [(tok_char, [58]); (tok_ident, [120]); (tok_char, [59]); (tok_ident, p)]
+              = [47;42;67;72;65;82;42;47] ++ p
+  | [] => True
+  end.
 Proof. vm_compute. reflexivity. Qed.
-(** the Kelvin sign: Go's ToLower folds it to k, so word-breaK passes the allow-list test *)
-Example kelvin_allowed : allowed [119;111;114;100;45;98;114;101;97;226;132;170] = true.
+(** the Kelvin sign: Go's ToLower folds it to k, so word-breaK passes the allow-list test
+    exactly when word-break is on the list *)
+Example kelvin_allowed :
+  allowed [119;111;114;100;45;98;114;101;97;226;132;170]
+  = mem_str [119;111;114;100;45;98;114;101;97;107] allowed_properties.
 Proof. vm_compute. reflexivity. Qed.
